@@ -121,7 +121,7 @@ CLAIMED.update({
             "coefficients (to 1e-16) and bounds the first omitted term where the series is used (1e-14 / 1e-11 "
             "absolute) and the neglected term of the small-x forms (2e-10 / 2e-8 relative); _betaln equals its "
             "lgamma combination; approximate_gamma_mom matches mean and variance exactly iff both are positive; "
-            "approximate_gamma_kl / _iqr (Newton loop followed for <= 2 iterations quick, <= 4/3 thorough, "
+            "approximate_gamma_kl / _iqr (Newton loop followed for <= 2 iterations quick, <= 3 thorough, "
             "transcendental callees uninterpreted): positive shape <= cap, mean / lower quantile matched "
             "exactly, iterates are exactly Newton's method for the stated equation, exit only under the "
             "stated tolerance, cap only when exceeded, failures are KLMinimizationFailedError with the stated "
